@@ -174,7 +174,8 @@ def gen_plan(tape, cfg):
             t = pool[i]
             if kind == "illtyped_construct":
                 o["ctor"] = tape.choice(["And", "Plus", "BVAdd", "Ite", "LE", "Equals", "Select", "Not", "BVConcat",
-                                         "Function", "Store", "StrLength"], "ctor")
+                                         "Function", "Store", "StrLength", "BVULT", "BVSLE", "BVComp", "Implies",
+                                         "ToReal", "StrConcat"], "ctor")
                 o["a"] = richgen.gen(tape, tape.choice([bp.BOOL, bp.INT, bp.REAL, bp.STRING, bp.BV(3)], "ill.sort"), 1, ctx)
                 o["b"] = richgen.gen(tape, tape.choice([bp.BOOL, bp.INT, bp.REAL, bp.BV(2)], "ill.sort2"), 1, ctx)
             elif kind == "illtyped_subst":
@@ -720,6 +721,18 @@ def _fault_fn(o, term, symbols, user, side, tape):
                 return mgr.BVConcat(a, b)
             if c == "StrLength":
                 return mgr.StrLength(a)
+            if c == "BVULT":
+                return mgr.BVULT(a, b)
+            if c == "BVSLE":
+                return mgr.BVSLE(a, b)
+            if c == "BVComp":
+                return mgr.BVComp(a, b)
+            if c == "Implies":
+                return mgr.Implies(a, b)
+            if c == "ToReal":
+                return mgr.ToReal(a)
+            if c == "StrConcat":
+                return mgr.StrConcat(a, b)
             return mgr.Function(mgr.Symbol("f", bp.to_pysmt_type(["Fun", [bp.INT], bp.INT], env)), [a, b])
         return fn, None
     if fk == "illtyped_subst":
